@@ -23,8 +23,11 @@ import (
 	"encoding/binary"
 	"fmt"
 	"iter"
+	"math"
 	"reflect"
 	"sort"
+
+	"github.com/gogpu/naga/zverif/fp"
 )
 
 // ---------------------------------------------------------------------------
@@ -354,6 +357,23 @@ func encodeKey(b []byte, v reflect.Value, top bool) []byte {
 			b = encodeKey(b, v.Index(i), false)
 		}
 		return b
+	case reflect.Float32, reflect.Float64:
+		return binary.BigEndian.AppendUint64(b, math.Float64bits(v.Float()))
+	case reflect.Pointer:
+		// addresses differ between processes: order pointer keys by the deep
+		// fingerprint of what they point to (ties keep an arbitrary order)
+		if v.IsNil() {
+			return binary.BigEndian.AppendUint64(b, 0)
+		}
+		return binary.BigEndian.AppendUint64(b, fp.Hash(v.Interface()))
+	case reflect.Interface:
+		if v.IsNil() {
+			return append(b, 0)
+		}
+		e := v.Elem()
+		b = append(b, e.Type().String()...)
+		b = append(b, 0)
+		return encodeKey(b, e, false)
 	}
 	panic(fmt.Sprintf("simrt: unsupported map key kind %s (%s): extend simrt.encodeKey", v.Kind(), v.Type()))
 }
